@@ -315,7 +315,7 @@ pub mod malapp {
 use crux_core::typegen::{State, TypeGen};
 use serde_reflection::Registry;
 
-fn take_registry(mut gen: TypeGen) -> Result<Registry, String> {
+pub fn take_registry(mut gen: TypeGen) -> Result<Registry, String> {
     let state = std::mem::replace(&mut gen.state, State::Generating(Registry::new()));
     match state {
         State::Registering(tracer, _samples) => tracer.registry().map_err(|e| format!("{}: {}", e, e.explanation())),
@@ -354,6 +354,36 @@ pub fn typegens() -> Vec<(&'static str, Result<TypeGen, String>)> {
             crux_time::TimeRequest::register_types(gen).map_err(|e| e.to_string())?;
             crux_platform::PlatformRequest::register_types(gen).map_err(|e| e.to_string())?;
             Ok(())
+        })),
+    ]
+}
+/// The same apps registered by another route a build.rs may take: `register_samples` with a FEW sample values first
+/// (not covering every variant), then the usual registration.  The later `register_type` / `register_app` must still
+/// complete the sampled enums: the traced registry has to be the one of the direct route.
+pub fn typegens_via_samples() -> Vec<(&'static str, Result<TypeGen, String>)> {
+    let mk = |f: &dyn Fn(&mut TypeGen) -> Result<(), String>| -> Result<TypeGen, String> { let mut g = TypeGen::new(); f(&mut g)?; Ok(g) };
+    vec![
+        ("kvapp", mk(&|gen| {
+            gen.register_samples::<kvapp::Api>(vec![kvapp::Api::Command]).map_err(|e| e.to_string())?;
+            gen.register_samples::<kvapp::StatusOutcome>(vec![kvapp::StatusOutcome::Is(true)]).map_err(|e| e.to_string())?;
+            gen.register_samples::<kvapp::Event>(vec![kvapp::Event::TimeNow]).map_err(|e| e.to_string())?;
+            gen.register_type::<kvapp::Api>().map_err(|e| e.to_string())?;
+            gen.register_type::<kvapp::Outcome>().map_err(|e| e.to_string())?;
+            gen.register_type::<kvapp::StatusOutcome>().map_err(|e| e.to_string())?;
+            gen.register_type::<kvapp::KeysOutcome>().map_err(|e| e.to_string())?;
+            gen.register_type::<kvapp::Entry>().map_err(|e| e.to_string())?;
+            gen.register_app::<kvapp::App>().map_err(|e| e.to_string())
+        })),
+        ("zoo", mk(&|gen| {
+            gen.register_samples::<zoo::Kind>(vec![zoo::Kind::B(-3), zoo::Kind::D(1, 2)]).map_err(|e| e.to_string())?;
+            gen.register_type::<zoo::Kind>().map_err(|e| e.to_string())?;
+            gen.register_app::<zoo::App>().map_err(|e| e.to_string())
+        })),
+        ("malapp", mk(&|gen| {
+            gen.register_samples::<malapp::Answer>(vec![malapp::Answer::Code(7), malapp::Answer::Pair(1, true)]).map_err(|e| e.to_string())?;
+            gen.register_type::<malapp::Answer>().map_err(|e| e.to_string())?;
+            gen.register_type::<malapp::Line>().map_err(|e| e.to_string())?;
+            gen.register_app::<malapp::App>().map_err(|e| e.to_string())
         })),
     ]
 }
